@@ -471,6 +471,51 @@ pub fn lookup(name: &str) -> Option<OpFn> {
             ok(vec![le(rt.0 - x, eps4 * ax), le(rt2.0 - x, eps4 * ax), le(full.0 - X::int(360), eps4 * X::int(360)),
                     Deg::<X>::full_turn().0.val() == crate::big::Rat::from_i64(360)])
         },
+        // ---------------------------------------------------------------- C06 (exact: the oracle sin/cos satisfy s^2+c^2=1)
+        "o.rot.axis_angle" => |a| {
+            let (ax, t, v) = (a.v3(), a.rad(), a.v3());
+            if !is0(&[ax.magnitude2() - X::int(1)]) { return Out::Skip; }
+            let (sn, cs) = Rad::sin_cos(t);
+            let want = v * cs + ax.cross(v) * sn + ax * (ax.dot(v) * (X::int(1) - cs));
+            let m3 = Matrix3::from_axis_angle(ax, t);
+            let m4 = Matrix4::from_axis_angle(ax, t);
+            let b3: Basis3<X> = Rotation3::from_axis_angle(ax, t);
+            let mut r = diff(m3 * v, want);
+            r.extend(diff(m4.transform_vector(v), want));
+            r.extend(diff(b3.rotate_vector(v), want));
+            r.extend(diff(Matrix3::from(b3), m3));
+            r.extend(diff(m3 * ax, ax));
+            r.extend(diff(m3.transpose() * m3, Matrix3::identity()));
+            r.push(m3.determinant() - X::int(1));
+            r.extend(diff(Matrix4::from(m3), m4));
+            // from_angle_x/y/z = from_axis_angle about the unit axes (all representations)
+            r.extend(diff(Matrix3::from_angle_x(t), Matrix3::from_axis_angle(Vector3::unit_x(), t)));
+            r.extend(diff(Matrix3::from_angle_y(t), Matrix3::from_axis_angle(Vector3::unit_y(), t)));
+            r.extend(diff(Matrix3::from_angle_z(t), Matrix3::from_axis_angle(Vector3::unit_z(), t)));
+            r.extend(diff(Matrix4::from_angle_x(t), Matrix4::from_axis_angle(Vector3::unit_x(), t)));
+            r.extend(diff(Matrix4::from_angle_y(t), Matrix4::from_axis_angle(Vector3::unit_y(), t)));
+            r.extend(diff(Matrix4::from_angle_z(t), Matrix4::from_axis_angle(Vector3::unit_z(), t)));
+            let bx: Basis3<X> = Rotation3::from_angle_x(t);
+            r.extend(diff(Matrix3::from(bx), Matrix3::from_angle_x(t)));
+            let qx: Quaternion<X> = Rotation3::from_angle_x(t);
+            let qa: Quaternion<X> = Rotation3::from_axis_angle(Vector3::unit_x(), t);
+            r.extend(diff(qx, qa));
+            // 2-D
+            let m2 = Matrix2::from_angle(t);
+            r.extend(diff(m2 * Vector2::unit_x(), Vector2::new(cs, sn)));
+            r.extend(diff(m2 * Vector2::unit_y(), Vector2::new(-sn, cs)));
+            let b2: Basis2<X> = Rotation2::from_angle(t);
+            r.extend(diff(Matrix2::from(b2), m2));
+            // r * invert(r) = one; rotate_point = rotate_vector(p - origin)
+            r.extend(diff(Matrix3::from(b3 * b3.invert()), Matrix3::identity()));
+            r.extend(diff(Matrix2::from(b2 * b2.invert()), Matrix2::identity()));
+            let p = Point3::from_vec(v);
+            r.extend(diff(b3.rotate_point(p).to_vec(), b3.rotate_vector(p - Point3::origin())));
+            let q: Quaternion<X> = Rotation3::from_axis_angle(ax, t);
+            r.extend(diff(q.rotate_point(p).to_vec(), q.rotate_vector(p - Point3::origin())));
+            r.extend(diff(q * q.invert(), Quaternion::one()));
+            ok(r)
+        },
         // ---------------------------------------------------------------- C10
         "o.proj.ortho" => |a| {
             let v: Vec<X> = (0..6).map(|_| a.x()).collect();
@@ -664,7 +709,7 @@ pub fn names() -> Vec<String> {
     let mut v: Vec<String> = ["o.v3.lagrange", "o.v3.cross_cross", "o.v3.cross_orth", "o.v.dot_bilinear",
         "o.m4.constructors", "o.m3.constructors", "o.m.embed", "o.p3.homogeneous",
         "o.q.algebra", "o.q.invert", "o.q.rotate", "o.q.compose", "o.q.same_rotation", "o.q.roundtrip",
-        "o.v1.metric", "o.v2.metric", "o.v3.metric", "o.v4.metric", "o.q.metric", "o.rad.modular", "o.deg.modular", "o.angle.convert", "o.proj.ortho", "o.proj.frustum", "o.proj.perspective", "o.proj.planar", "o.dq.matrix", "o.db2.matrix", "o.m4.transform", "o.m3.transform",
+        "o.v1.metric", "o.v2.metric", "o.v3.metric", "o.v4.metric", "o.q.metric", "o.rot.axis_angle", "o.rad.modular", "o.deg.modular", "o.angle.convert", "o.proj.ortho", "o.proj.frustum", "o.proj.perspective", "o.proj.planar", "o.dq.matrix", "o.db2.matrix", "o.m4.transform", "o.m3.transform",
         "o.dq.laws", "o.dq.inverse", "o.db3.laws", "o.db3.inverse", "o.db2.laws", "o.db2.inverse"]
         .iter()
         .map(|s| s.to_string())
